@@ -36,10 +36,11 @@ def main(tier, replay=None):
             return ["--cpu", str(w % ncpu), "--interleavings-out", p]
         return f
     det = determinism_selftest(exe, "C14", ["swarm"], seed, 400 if tier == "quick" else 4000, W, 3)
-    secs = 8 if tier == "quick" else 300
+    q = tier == "quick"
+    secs = 90 if q else 300
     batches = []
-    for cfg, share in (("swarm", 1.0), ("pct", 0.5), ("random", 0.5)):
-        batches.append(Batch(cfg, exe, "C14", cfg, seed, 10**8, max(2, int(secs * share)), W, samples=(cfg == "swarm"), extra=extra(cfg)).run())
+    for cfg, share, cnt in (("swarm", 1.0, 16000), ("pct", 0.5, 8000), ("random", 0.5, 8000)):
+        batches.append(Batch(cfg, exe, "C14", cfg, seed, cnt if q else 10**8, max(2, int(secs * share)), W, samples=(cfg == "swarm"), extra=extra(cfg)).run())
     if tier == "thorough":
         # other build configurations of the same sources: EAV_EXTRA (strndup'd lpart/domain), and the optional grammar flags
         for vn, defs in (("-extra", ["-DEAV_EXTRA"]), ("-flags", ["-DRFC6531_FOLLOW_RFC5322", "-DRFC6531_FOLLOW_RFC20", "-DLABELS_ALLOW_UNDERSCORE"])):
